@@ -43,7 +43,7 @@ def r1(ctx):
                 ctx.bad("writer-reads-current@%s" % short(path), "the static response writer touches Point::current (%r): values updated after the READ was processed leak into later fragments" % p, bd.where(blk))
             if point_field(p, "selected") and rw == "r" and "static_db" in bd.file and "SelectionQueue" not in bd.path:
                 n_sel += 1
-    ctx.check(n_sel >= 3, "writer-reads-selected", "the static writer reads Point::selected at %d places (%d bodies reachable from StaticDatabase::write)" % (n_sel, nb), root.where(line=root.line))
+    ctx.check(n_sel >= 1, "writer-reads-selected", "the static writer reads Point::selected at %d places (%d bodies reachable from StaticDatabase::write)" % (n_sel, nb), root.where(line=root.line))
     if n_cur == 0:
         ctx.ok("writer-never-reads-current", "no body reachable from StaticDatabase::write reads Point::current", root.where(line=root.line))
     # writers of Point::selected
@@ -94,10 +94,11 @@ def r2(ctx):
     ctx.check(any(mentions_call(e, r"AttrHandler::write$") for _, e in exprs), "complete<-attrs", "complete <- attrs.write()", bd.where(line=bd.line))
     for b, si, st in agg_sites(bd, r"database::ResponseInfo$"):
         e = sym.rvalue_expr(st.rv)
-        ctx.check(agg_field(e, "has_events") == ("var", "has_events") and agg_field(e, "complete") == ("var", "complete"), "ResponseInfo:fields", "ResponseInfo{has_events: %s, complete: %s}" % (expr_str(agg_field(e, "has_events")), expr_str(agg_field(e, "complete"))), bd.where(b.idx))
-    hl = bd.local_by_name("has_events")
-    hexprs = [sym.def_expr(blk, si) for l in hl for blk, si in bd.defs.get(l, [])]
-    ctx.check(len(hexprs) == 2 and all(mentions(e, lambda s: s[0] == "bin" and s[1] == "Gt") and mentions_call(e, r"write_events$") for e in hexprs), "has_events<-count>0", "has_events <- count > 0 on both arms", bd.where(line=bd.line))
+        cexprs = resolve_defs(bd, sym, agg_field(e, "complete"))
+        ctx.check(any(mentions_call(x, r"StaticDatabase::write$|AttrHandler::write$") for x in cexprs), "ResponseInfo:fields", "ResponseInfo{has_events: %s, complete: %s}" % (expr_str(agg_field(e, "has_events")), expr_str(agg_field(e, "complete"))), bd.where(b.idx))
+        # has_events is `count > 0` of what write_events reported, whether the whole selection fitted (Ok) or not (Err)
+        hexprs = resolve_defs(bd, sym, agg_field(e, "has_events"))
+        ctx.check(bool(hexprs) and all(mentions(x, lambda s: s[0] == "bin" and s[1] == "Gt") and mentions_call(x, r"write_events$") for x in hexprs), "has_events<-count>0", "has_events <- count > 0 on every arm (%s)" % [expr_str(x)[:50] for x in hexprs], bd.where(line=bd.line))
     # StaticDatabase::write: pop only after a completely written range; Err updates the front and stops
     wb = prog.body("range::static_db::StaticDatabase::write")
     wr = lambda x: mentions_call(x, r"StaticDatabase::write_range$")
